@@ -11,3 +11,7 @@ Theorem C14_filter_edges filt b e : In e (dot_edges filt b) <-> In e (dot_edges 
 Proof. exact (DotBdd.C14_filter_edges filt b e). Qed.
 Theorem C14_tree_node f : rebuild (label f) (out_edges f) = Some f. Proof. exact (C14_rebuild f). Qed.
 Print Assumptions C14_walk. Print Assumptions C14_tree_node.
+
+Example C14_instance : length (dot_nodes TAny (Nd (Nd T 1 F) 0 (Nd T 1 F))) = 4 /\ length (dot_edges TAny (Nd (Nd T 1 F) 0 (Nd T 1 F))) = 4
+                       /\ length (dot_nodes TTrue (Nd (Nd T 1 F) 0 (Nd T 1 F))) = 3.
+Proof. repeat split; vm_compute; reflexivity. Qed.
